@@ -1173,6 +1173,17 @@ def is1(F, R):
                 continue
             ok, _ = guarded(fn, b, lambda g, fld=fld: g.kind == "variant" and g.variant == "Some" and fld in tstr(g.term))
             R.require(ok, fn, "store:" + fld, "info-sector field %s stored although the in-memory value is unknown (None)" % fld, fn.loc(b))
+            # the value stored is the field's value itself, little-endian - not a clamped / adjusted one
+            sv = strip_refs(fn.term_of_operand(t["args"][1], b))
+            while sv[0] == "call" and sv[1] and sv[1].split("::")[-1] in ("index", "deref", "as_slice", "as_ref", "borrow") and sv[2]:
+                sv = strip_refs(sv[2][0])
+            exact = False
+            if sv[0] == "call" and sv[1] and sv[1].endswith("to_le_bytes") and len(sv[2]) == 1:
+                inner = strip_refs(sv[2][0])
+                from .mir import flat_place
+                root, names = flat_place(inner)
+                exact = inner[0] == "place" and root[:2] == ("arg", 1) and [n for n in names if n not in ("as:Some",)] in ([fld, "0"], [fld, "0", "0"])
+            R.require(exact, fn, "stored-value:" + fld, "the %s written to the info sector is not the in-memory value itself (%s): a clamped / recomputed number makes the record untrue" % (fld, tstr(sv)[:100]), fn.loc(b))
     n = 0
     for f in F.fns:
         for b, i, s in f.stmts():
@@ -1253,7 +1264,10 @@ def is3(F, R):
                 continue
             v = fn.term_of_rvalue(d[3], d[1])
             if "next_free_cluster" in tstr(v):
-                g, _ = guarded(fn, d[1], lambda g: g_cmp("Lt", True, lambda a: "next_free_cluster" in tstr(a), lambda z: "cluster_count" in tstr(z) or z[0] == "var" or "0" in tstr(z))(g))
+                from .ev import implying_edges
+                pr_ = lambda g: g_cmp("Lt", True, lambda a: "next_free_cluster" in tstr(a), lambda z: "cluster_count" in tstr(z) or z[0] == "var" or "0" in tstr(z))(g)
+                # (the test may sit in a filter predicate / be carried in a flag: decided on the edges that imply it)
+                g = d[1] not in fn.reach([0], cut_edges=list(implying_edges(fn, pr_)))
                 ok_all = ok_all and g
             else:
                 ok_all = ok_all and ("RESERVED_ENTRIES" in tstr(v) or tstr(v) in ("ClusterId{2}",))
